@@ -711,6 +711,10 @@ def run(F, rep, tier):
     rep.attempt(rule_r5, F, rep)
     rep.attempt(rule_r6, F, rep)
     rep.attempt(rule_r7, F, rep)
+    # node spans are built by SpanManager::make_surrounding_span: only through the checked constructor, packed fields bounded
+    from . import c16
+    rep.attempt(c16.rule_r2, F, rep)
+    rep.attempt(c16.rule_r5, F, rep)
     rep.assume("print/re-parse stability is not decided (no printer exists in the repository); node span containment "
                "is not decided")
     return EXPLANATION
